@@ -304,3 +304,304 @@ impl<P: TOutputProtocol + WProbe> TOutputProtocol for TracedW<P> {
 
 #[allow(dead_code)]
 fn _unused(_: TFieldIdentifier) {}
+
+// ------------------------------------------------------------------------------------------------
+// reader side
+use pilota::thrift::TInputProtocol;
+
+use crate::interp::RProbe;
+
+/// `TracedR<P>`: a TInputProtocol that delegates to the real reader and logs one event per call in the format of
+/// `interp::read_tree`, plus the calls only emitted decoders make: the reader's own length methods (`rl_*`) and
+/// `skip` (`r_skip`).
+pub struct TracedR<P> {
+    pub inner: P,
+    pub log: Vec<Value>,
+    pos: usize,
+    pub unmodelled: Vec<String>,
+}
+
+impl<P: TInputProtocol + RProbe> TracedR<P> {
+    pub fn new(mut inner: P) -> Self {
+        let pos = inner.consumed();
+        let st = inner.cstate();
+        TracedR { inner, log: vec![json!({"op":"init","st":st})], pos, unmodelled: vec![] }
+    }
+    fn r(&mut self, mut ev: Value) {
+        let now = self.inner.consumed();
+        ev["n"] = json!(now - self.pos);
+        self.pos = now;
+        ev["st"] = self.inner.cstate();
+        self.log.push(ev);
+    }
+    fn rl(&mut self, mut ev: Value, ret: usize) -> usize {
+        ev["ret"] = json!(ret);
+        ev["st"] = self.inner.cstate();
+        self.log.push(ev);
+        ret
+    }
+    /// bytes consumed since construction
+    pub fn used(&mut self, start: usize) -> usize {
+        self.inner.consumed() - start
+    }
+    pub fn start(&mut self) -> usize {
+        self.inner.consumed()
+    }
+}
+
+impl<P: TInputProtocol + RProbe> TLengthProtocol for TracedR<P> {
+    fn message_begin_len(&mut self, identifier: &TMessageIdentifier) -> usize {
+        self.unmodelled.push("in.message_begin_len".into());
+        self.inner.message_begin_len(identifier)
+    }
+    fn message_end_len(&mut self) -> usize {
+        self.inner.message_end_len()
+    }
+    fn struct_begin_len(&mut self, identifier: &TStructIdentifier) -> usize {
+        let r = self.inner.struct_begin_len(identifier);
+        self.rl(json!({"op":"rl_struct_begin"}), r)
+    }
+    fn struct_end_len(&mut self) -> usize {
+        let r = self.inner.struct_end_len();
+        self.rl(json!({"op":"rl_struct_end"}), r)
+    }
+    fn field_begin_len(&mut self, field_type: TType, id: Option<i16>) -> usize {
+        let r = self.inner.field_begin_len(field_type, id);
+        match id {
+            Some(id) => self.rl(json!({"op":"rl_field_begin","t":field_type as u8,"id":id}), r),
+            None => {
+                self.unmodelled.push("in.field_begin_len(None)".into());
+                r
+            }
+        }
+    }
+    fn field_end_len(&mut self) -> usize {
+        let r = self.inner.field_end_len();
+        self.rl(json!({"op":"rl_field_end"}), r)
+    }
+    fn field_stop_len(&mut self) -> usize {
+        let r = self.inner.field_stop_len();
+        self.rl(json!({"op":"rl_field_stop"}), r)
+    }
+    fn bool_len(&mut self, b: bool) -> usize {
+        let r = self.inner.bool_len(b);
+        self.rl(json!({"op":"rl_bool","b": if b {1} else {0}}), r)
+    }
+    fn bytes_len(&mut self, b: &[u8]) -> usize {
+        let r = self.inner.bytes_len(b);
+        self.rl(json!({"op":"rl_binary","n":b.len()}), r)
+    }
+    fn bytes_vec_len(&mut self, b: &[u8]) -> usize {
+        let r = self.inner.bytes_vec_len(b);
+        self.rl(json!({"op":"rl_binary","n":b.len()}), r)
+    }
+    fn byte_len(&mut self, b: u8) -> usize {
+        let r = self.inner.byte_len(b);
+        self.rl(json!({"op":"rl_i8","v":[b]}), r)
+    }
+    fn uuid_len(&mut self, u: [u8; 16]) -> usize {
+        let r = self.inner.uuid_len(u);
+        self.rl(json!({"op":"rl_uuid","v":bytes_json(&u)}), r)
+    }
+    fn i8_len(&mut self, i: i8) -> usize {
+        let r = self.inner.i8_len(i);
+        self.rl(json!({"op":"rl_i8","v":[i as u8]}), r)
+    }
+    fn i16_len(&mut self, i: i16) -> usize {
+        let r = self.inner.i16_len(i);
+        self.rl(json!({"op":"rl_i16","v":limbs(i as u16 as u64, 1)}), r)
+    }
+    fn i32_len(&mut self, i: i32) -> usize {
+        let r = self.inner.i32_len(i);
+        self.rl(json!({"op":"rl_i32","v":limbs(i as u32 as u64, 2)}), r)
+    }
+    fn i64_len(&mut self, i: i64) -> usize {
+        let r = self.inner.i64_len(i);
+        self.rl(json!({"op":"rl_i64","v":limbs(i as u64, 4)}), r)
+    }
+    fn double_len(&mut self, d: f64) -> usize {
+        let r = self.inner.double_len(d);
+        self.rl(json!({"op":"rl_double","v":f64_bytes(d)}), r)
+    }
+    fn string_len(&mut self, s: &str) -> usize {
+        let r = self.inner.string_len(s);
+        self.rl(json!({"op":"rl_binary","n":s.len()}), r)
+    }
+    fn faststr_len(&mut self, s: &FastStr) -> usize {
+        let r = self.inner.faststr_len(s);
+        self.rl(json!({"op":"rl_binary","n":s.len()}), r)
+    }
+    fn list_begin_len(&mut self, identifier: TListIdentifier) -> usize {
+        let r = self.inner.list_begin_len(identifier);
+        self.rl(json!({"op":"rl_list_begin","t":identifier.element_type as u8,"n":identifier.size}), r)
+    }
+    fn list_end_len(&mut self) -> usize {
+        let r = self.inner.list_end_len();
+        self.rl(json!({"op":"rl_list_end"}), r)
+    }
+    fn set_begin_len(&mut self, identifier: TSetIdentifier) -> usize {
+        let r = self.inner.set_begin_len(identifier);
+        self.rl(json!({"op":"rl_set_begin","t":identifier.element_type as u8,"n":identifier.size}), r)
+    }
+    fn set_end_len(&mut self) -> usize {
+        let r = self.inner.set_end_len();
+        self.rl(json!({"op":"rl_set_end"}), r)
+    }
+    fn map_begin_len(&mut self, identifier: TMapIdentifier) -> usize {
+        let r = self.inner.map_begin_len(identifier);
+        self.rl(json!({"op":"rl_map_begin","kt":identifier.key_type as u8,"vt":identifier.value_type as u8,"n":identifier.size}), r)
+    }
+    fn map_end_len(&mut self) -> usize {
+        let r = self.inner.map_end_len();
+        self.rl(json!({"op":"rl_map_end"}), r)
+    }
+    fn zero_copy_len(&mut self) -> usize {
+        self.inner.zero_copy_len()
+    }
+    fn reset(&mut self) {
+        self.inner.reset()
+    }
+}
+
+impl<P: TInputProtocol + RProbe> TInputProtocol for TracedR<P> {
+    type Buf = P::Buf;
+
+    fn read_message_begin(&mut self) -> Result<TMessageIdentifier, ThriftException> {
+        self.unmodelled.push("read_message_begin".into());
+        self.inner.read_message_begin()
+    }
+    fn read_message_end(&mut self) -> Result<(), ThriftException> {
+        self.inner.read_message_end()
+    }
+    fn read_struct_begin(&mut self) -> Result<Option<TStructIdentifier>, ThriftException> {
+        let r = self.inner.read_struct_begin()?;
+        self.r(json!({"op":"r_struct_begin"}));
+        Ok(r)
+    }
+    fn read_struct_end(&mut self) -> Result<(), ThriftException> {
+        self.inner.read_struct_end()?;
+        self.r(json!({"op":"r_struct_end"}));
+        Ok(())
+    }
+    fn read_field_begin(&mut self) -> Result<TFieldIdentifier, ThriftException> {
+        let f = self.inner.read_field_begin()?;
+        if f.field_type == TType::Stop {
+            self.r(json!({"op":"r_field_stop"}));
+        } else {
+            self.r(json!({"op":"r_field_begin","t":f.field_type as u8,"id":f.id.unwrap_or(0)}));
+        }
+        Ok(f)
+    }
+    fn read_field_end(&mut self) -> Result<(), ThriftException> {
+        self.inner.read_field_end()?;
+        self.r(json!({"op":"r_field_end"}));
+        Ok(())
+    }
+    fn read_bool(&mut self) -> Result<bool, ThriftException> {
+        let b = self.inner.read_bool()?;
+        self.r(json!({"op":"r_bool","b": if b {1} else {0}}));
+        Ok(b)
+    }
+    fn read_bytes(&mut self) -> Result<Bytes, ThriftException> {
+        let b = self.inner.read_bytes()?;
+        self.r(json!({"op":"r_binary","api":"bytes","v":bytes_json(&b)}));
+        Ok(b)
+    }
+    fn read_uuid(&mut self) -> Result<[u8; 16], ThriftException> {
+        let u = self.inner.read_uuid()?;
+        self.r(json!({"op":"r_uuid","v":bytes_json(&u)}));
+        Ok(u)
+    }
+    fn read_i8(&mut self) -> Result<i8, ThriftException> {
+        let x = self.inner.read_i8()?;
+        self.r(json!({"op":"r_i8","v":[x as u8]}));
+        Ok(x)
+    }
+    fn read_i16(&mut self) -> Result<i16, ThriftException> {
+        let x = self.inner.read_i16()?;
+        self.r(json!({"op":"r_i16","v":limbs(x as u16 as u64, 1)}));
+        Ok(x)
+    }
+    fn read_i32(&mut self) -> Result<i32, ThriftException> {
+        let x = self.inner.read_i32()?;
+        self.r(json!({"op":"r_i32","v":limbs(x as u32 as u64, 2)}));
+        Ok(x)
+    }
+    fn read_i64(&mut self) -> Result<i64, ThriftException> {
+        let x = self.inner.read_i64()?;
+        self.r(json!({"op":"r_i64","v":limbs(x as u64, 4)}));
+        Ok(x)
+    }
+    fn read_double(&mut self) -> Result<f64, ThriftException> {
+        let x = self.inner.read_double()?;
+        self.r(json!({"op":"r_double","v":f64_bytes(x)}));
+        Ok(x)
+    }
+    fn read_string(&mut self) -> Result<String, ThriftException> {
+        let s = self.inner.read_string()?;
+        self.r(json!({"op":"r_binary","api":"str","v":bytes_json(s.as_bytes())}));
+        Ok(s)
+    }
+    fn read_faststr(&mut self) -> Result<FastStr, ThriftException> {
+        let s = self.inner.read_faststr()?;
+        self.r(json!({"op":"r_binary","api":"faststr","v":bytes_json(s.as_bytes())}));
+        Ok(s)
+    }
+    fn read_list_begin(&mut self) -> Result<TListIdentifier, ThriftException> {
+        let i = self.inner.read_list_begin()?;
+        self.r(json!({"op":"r_list_begin","t":i.element_type as u8,"cnt":i.size}));
+        Ok(i)
+    }
+    fn read_list_end(&mut self) -> Result<(), ThriftException> {
+        self.inner.read_list_end()?;
+        self.r(json!({"op":"r_list_end"}));
+        Ok(())
+    }
+    fn read_set_begin(&mut self) -> Result<TSetIdentifier, ThriftException> {
+        let i = self.inner.read_set_begin()?;
+        self.r(json!({"op":"r_set_begin","t":i.element_type as u8,"cnt":i.size}));
+        Ok(i)
+    }
+    fn read_set_end(&mut self) -> Result<(), ThriftException> {
+        self.inner.read_set_end()?;
+        self.r(json!({"op":"r_set_end"}));
+        Ok(())
+    }
+    fn read_map_begin(&mut self) -> Result<TMapIdentifier, ThriftException> {
+        let i = self.inner.read_map_begin()?;
+        self.r(json!({"op":"r_map_begin","kt":i.key_type as u8,"vt":i.value_type as u8,"cnt":i.size}));
+        Ok(i)
+    }
+    fn read_map_end(&mut self) -> Result<(), ThriftException> {
+        self.inner.read_map_end()?;
+        self.r(json!({"op":"r_map_end"}));
+        Ok(())
+    }
+    fn skip(&mut self, field_type: TType) -> Result<usize, ThriftException> {
+        let n = self.inner.skip(field_type)?;
+        self.r(json!({"op":"r_skip","t":field_type as u8,"ret":n}));
+        Ok(n)
+    }
+    fn skip_till_depth(&mut self, field_type: TType, depth: i8) -> Result<usize, ThriftException> {
+        let n = self.inner.skip_till_depth(field_type, depth)?;
+        self.r(json!({"op":"r_skip","t":field_type as u8,"ret":n}));
+        Ok(n)
+    }
+    fn read_byte(&mut self) -> Result<u8, ThriftException> {
+        let x = self.inner.read_byte()?;
+        self.r(json!({"op":"r_i8","v":[x]}));
+        Ok(x)
+    }
+    fn read_bytes_vec(&mut self) -> Result<Vec<u8>, ThriftException> {
+        let b = self.inner.read_bytes_vec()?;
+        self.r(json!({"op":"r_binary","api":"vec","v":bytes_json(&b)}));
+        Ok(b)
+    }
+    fn get_bytes(&mut self, ptr: Option<*const u8>, len: usize) -> Result<Bytes, ThriftException> {
+        // pure observation of already consumed input (retention): no event, the re-encoded bytes are judged elsewhere
+        self.inner.get_bytes(ptr, len)
+    }
+    fn buf(&mut self) -> &mut Self::Buf {
+        self.inner.buf()
+    }
+}
